@@ -70,6 +70,11 @@ fn main() {
                 _ => sg::gen_c05(seed, s, l, &mut log),
             }
         }
+        "csr-replay" => {
+            let mut log = Log::to_path(&out);
+            let scripts = read_ndjson(&args.str("in", ""));
+            sg::csr_replay(&scripts, &mut log);
+        }
         "mx-grow" => {
             let mut log = Log::to_path(&out);
             let calls = read_ndjson(&args.str("in", ""));
